@@ -120,7 +120,9 @@ def h_relayout(c0: int, c1: int, c2: int, c3: int, c4: int) -> bool:
         g1 = ch.pick(ngaps)
         gaps, lays = [g1], [l1]
         if TWO_GAPS:
-            g2 = ch.pick(ngaps)
+            g2 = g1 + 1 + ch.pick(GAP_SPAN)  # the second gap lies within the next GAP_SPAN gaps (look-ahead / push-back sequences are local)
+            if g2 >= ngaps:
+                return True
             gaps.append(g2)
             lays.append(LAYOUTS2[ch.pick(len(LAYOUTS2))])
         if TWIN:
@@ -130,6 +132,7 @@ def h_relayout(c0: int, c1: int, c2: int, c3: int, c4: int) -> bool:
 
 
 TWO_GAPS = False
+GAP_SPAN = 3
 LAYOUTS2 = ["\n", " /* c */ ", " // c\n", " \\\n "]
 
 
@@ -142,7 +145,10 @@ def relayout_replay(vals, two):
     l1 = LAYOUTS[ch.pick(len(LAYOUTS))]
     gaps, lays = [ch.pick(ngaps)], [l1]
     if two:
-        gaps.append(ch.pick(ngaps))
+        g2 = gaps[0] + 1 + ch.pick(GAP_SPAN)
+        if g2 >= ngaps:
+            return progs[pi], None, None
+        gaps.append(g2)
         lays.append(LAYOUTS2[ch.pick(len(LAYOUTS2))])
     text, bad = relayout_judge(pi, gaps, lays)
     return progs[pi], text, bad
@@ -434,7 +440,7 @@ def run(tier):
         res2 = None
         if tier == "thorough":
             res2 = chrun.run(__name__, "h_relayout", [(a, b) for a in range(len(progs)) for b in range(len(LAYOUTS))], timeout=2400, globs=dict(TWO_GAPS=True), pool=pool)
-            chrun.record(ck, res2, "two gaps perturbed at once", bound=f"{len(LAYOUTS)} x {len(LAYOUTS2)} layouts, all gap pairs")
+            chrun.record(ck, res2, "two gaps perturbed at once", bound=f"{len(LAYOUTS)} x {len(LAYOUTS2)} layouts, every gap with each of the next {GAP_SPAN} gaps")
     finally:
         pool.shutdown()
     seen = set()
